@@ -86,6 +86,10 @@ def strategy(tier):
         # while only this many CPUs were online (anything psutil remembered
         # from that call is stale afterwards)
         sim_warmup=st.sampled_from([None, None, 1, 2, 4]),
+        # simulated tier: the kernel refuses these requests on the target with
+        # EPERM (another user's process): AccessDenied, and nothing changes
+        sim_denied=st.sets(st.sampled_from(["setpriority", "ioprio_set", "sched_setaffinity", "prlimit"]),
+                           max_size=2).map(sorted),
         sim_allowed=st.sampled_from(["0-3", "0", "0-2,5-6", "1,3", None, None, None, "0-1", "2-3",
                                      "0-100", "60-70"]),
         # run the whole sequence inside `with p.oneshot():` (set, then get, in one block)
@@ -351,6 +355,10 @@ def run_sim(case):
     # the task may ever use (cpuset) are `elig`
     tgt.affinity = set(elig)
     tgt.cpuset = set(elig)
+    denied = set(case.get("sim_denied") or ())
+    tgt.unreadable |= denied
+    SYSCALL = {"nice": "setpriority", "ionice": "ioprio_set", "cpu_affinity": "sched_setaffinity",
+               "rlimit": "prlimit"}
     labels = set()
     nontrivial = set()
     excluded = 0
@@ -419,6 +427,16 @@ def run_sim(case):
             desc = f"sim {kind}{tuple(op[1:])} (Cpus_allowed_list {allowed!r})"
             if (other.nice, other.ioprio, other.affinity, dict(other.rlimits)) != o_before:
                 raise Violation("sim-bystander", desc)
+            if SYSCALL.get(kind) in denied:
+                # refused by the kernel: AccessDenied (an invalid request may be
+                # rejected with ValueError before it is made), nothing delivered
+                ok_exc = isinstance(exc, psutil.AccessDenied) or (not valid and isinstance(exc, ValueError))
+                if not ok_exc or new:
+                    raise Violation("sim-denied", f"{desc} refused with EPERM: {exc!r}, delivered {new}")
+                if getattr(exc, "pid", 50) != 50:
+                    raise Violation("sim-denied", f"{desc}: {exc!r} carries another pid")
+                labels.add("sim-denied-by-kernel")
+                continue
             if not valid:
                 if not isinstance(exc, ValueError) or new:
                     raise Violation("sim-invalid", f"{desc}: {exc!r} delivered {new}")
